@@ -182,6 +182,128 @@ def run_insert_shortcut(chk, F):
            '%s:%s' % (rel(f['file']), g.get('l')), ok, why, key='E8|Toplex_map::insert_simplex|shortcut')
 
 
+def run_label_width(chk, F):
+    """E4-label-width: "over any vertex labels": Vertex is std::size_t, and a label is never converted to a narrower
+    integer type (an `int` copy of a label of 2^31 or more designates another vertex). Every integral conversion whose
+    operand is typed Vertex keeps at least its width."""
+    n = 0
+    n_labels = 0
+    bad = None
+    for f in F.functions:
+        if f.get('clsname') not in ('Toplex_map', 'Lazy_toplex_map') or f['inst'] not in (0, 2) or \
+                f.get('body') is None:
+            continue
+        for x in ir.walk(f['body']):
+            if 'Vertex' in (x.get('t') or '') and x.get('bits'):
+                n_labels += 1
+            if x.get('k') not in ir.CAST_KINDS or x.get('ck') != 'IntegralCast':
+                continue
+            ch = (x.get('c') or [None])[0]
+            if ch is None or 'Vertex' not in (ch.get('t') or ''):
+                continue
+            n += 1
+            if x.get('bits') is not None and ch.get('bits') is not None and x['bits'] < ch['bits'] and bad is None:
+                bad = (f, x, ch)
+    chk.count('conversions of vertex labels checked', n)
+    chk.count('label-typed expressions inspected', n_labels)
+    chk.expect_count('E4-label-width', 'label-typed expressions', n_labels, 20)
+    chk.ob('E4-label-width', 'no vertex label is converted to a narrower integer type (%d conversions)' % n,
+           'src/Toplex_map/include/gudhi', bad is None,
+           '' if bad is None else '%s::%s line %s: `%s` (%s, %d bits) is converted to %s (%d bits): labels of 2^%d or '
+           'more designate another vertex' % (bad[0]['clsname'], bad[0]['name'], bad[1].get('l'), ir.show(bad[2]),
+                                              bad[2].get('t'), bad[2]['bits'], bad[1].get('t'), bad[1]['bits'],
+                                              bad[1]['bits'] - 1),
+           key='E4|toplex|label-width' if bad is None else 'E4|%s::%s|label-width' % (bad[0]['clsname'], bad[0]['name']))
+
+
+def run_handle_lockstep(chk, F):
+    """E2-handle-lockstep: cp_handles[v] is the handle of v's node in cleaning_priority: the two containers change
+    together. On every path of every function of Lazy_toplex_map, each push into the queue is followed by the
+    registration of its handle, and a clear / erase of one container comes with the same operation on the other
+    (a handle that outlives its node is used by the next update)."""
+    fns = [f for f in F.functions if f.get('clsname') == 'Lazy_toplex_map' and f['inst'] in (0, 2) and
+           f.get('body') is not None]
+    n = 0
+    for f in fns:
+        def cl(x):
+            if ir.is_call(x) and ir.call_receiver(x) is not None:
+                r = ir.show(ir.call_receiver(x))
+                nm = ir.call_name(x)
+                if r == 'cleaning_priority' and nm in ('push', 'emplace'):
+                    return ['Q+']
+                if r == 'cleaning_priority' and nm in ('clear', 'erase', 'pop'):
+                    return ['Q-' + ('all' if nm == 'clear' else '1')]
+                if r == 'cp_handles' and nm in ('emplace', 'insert', 'try_emplace', 'insert_or_assign'):
+                    return ['H+']
+                if r == 'cp_handles' and nm in ('clear', 'erase'):
+                    return ['H-' + ('all' if nm == 'clear' else '1')]
+            return []
+        if not ir.contains(f['body'], lambda y: bool(cl(y))) or (f.get('kind') or '').endswith('ctor'):
+            continue    # (the copy constructor rebuilds the handles for a queue copied by its initialiser: rule E1d)
+        n += 1
+        ps = paths.enumerate_paths(f, cl, loop_mode='1', keep_conds=False, cap=20000)
+        bad = None
+        for p in ps:
+            t = p.tags()
+            c = {k_: t.count(k_) for k_ in ('Q+', 'H+', 'Q-all', 'H-all', 'Q-1', 'H-1')}
+            if (c['Q+'] != c['H+'] or c['Q-all'] != c['H-all'] or c['Q-1'] != c['H-1']) and bad is None:
+                bad = c
+        chk.ob('E2-handle-lockstep', 'Lazy_toplex_map::%s changes cleaning_priority and cp_handles together on every '
+               'path (%d paths)' % (f['name'], len(ps)), '%s:%d' % (rel(f['file']), f['line']), bad is None,
+               '' if bad is None else 'a path performs %s' % {k_: v for k_, v in bad.items() if v},
+               key='E2|Lazy_toplex_map::%s|handle-lockstep' % f['name'])
+    chk.expect_count('E2-handle-lockstep', 'functions changing the priority queue', n, 2)
+
+
+def run_handle_copy(chk, F):
+    """E1d: cp_handles holds handles into the sibling container cleaning_priority: the class cannot be copied
+    member-wise (shared rule with C15: canonical member types, user-provided copy constructor that does not take the
+    member from the source)."""
+    import re
+    cs = [c for c in F.classes if c['name'] == 'Lazy_toplex_map' and c.get('inst') == 2]
+    if len(cs) != 1:
+        raise AnalysisBroken('C16: class Lazy_toplex_map not found')
+    c = cs[0]
+    pairs = []
+    for a in c['fields']:
+        ct = a.get('ct') or ''
+        if 'node_handle<' in ct or 'iterator' in ct:
+            for b in c['fields']:
+                if b is not a and re.match(r'boost::heap::', b.get('ct') or ''):
+                    pairs.append((a, b))
+    if not pairs:
+        chk.ob('E1d-self-referential', 'Lazy_toplex_map has no member referring into a sibling container',
+               '%s:%s' % (rel(c['file']), c['line']), True, '', key='E1d|Lazy_toplex_map|none', nontrivial=False)
+        return
+    for a, b in pairs:
+        where = '%s:%s' % (rel(c['file']), a.get('l'))
+        ok_decl = c.get('copy_ctor') in ('user', 'deleted') and c.get('copy_assign') in ('user', 'deleted')
+        chk.ob('E1d-self-referential', 'Lazy_toplex_map: `%s` holds handles into `%s`: the copy members are '
+               'user-provided or deleted' % (a['n'], b['n']), where, ok_decl,
+               '' if ok_decl else 'copy constructor: %s, copy assignment: %s - a member-wise copy leaves the handles '
+               'of the copy designating the nodes of the source\'s queue' % (c.get('copy_ctor'), c.get('copy_assign')),
+               key='E1d|Lazy_toplex_map|%s|declared' % a['n'])
+        for f in F.functions:
+            if f.get('clsname') == 'Lazy_toplex_map' and f.get('kind') == 'copy_ctor' and f.get('body') is not None:
+                src = f['params'][0]['n']
+                bad = None
+                for ini in f.get('inits', []) or []:
+                    if ini.get('member') == a['n'] and ini.get('init') is not None and \
+                            re.search(r'(?<!\w)%s\.%s(?!\w)' % (re.escape(src), re.escape(a['n'])),
+                                      ir.show(ini['init'])):
+                        bad = 'initialised from %s.%s' % (src, a['n'])
+                for x in ir.walk(f['body']):
+                    if x.get('k') in ('BinaryOperator', 'CXXOperatorCallExpr') and x.get('op') == '=':
+                        cs_ = (x.get('c') or [])[-2:]
+                        if len(cs_) == 2 and ir.show(cs_[0]).split('.')[-1] == a['n'] and \
+                                ir.show(cs_[1]).endswith('%s.%s' % (src, a['n'])):
+                            bad = 'assigned from %s.%s' % (src, a['n'])
+                chk.ob('E1d-self-referential', 'Lazy_toplex_map: the copy constructor does not copy `%s` member-wise'
+                       % a['n'], '%s:%d' % (rel(f['file']), f['line']), bad is None,
+                       '' if bad is None else '`%s` is %s' % (a['n'], bad),
+                       key='E1d|Lazy_toplex_map|%s|copy_ctor' % a['n'])
+
+
 def run(tier, replay=None):
     chk = Check('C16', tier,
                 'Static decision of one information-flow clause of the toplex maps: in every loop over maximal '
@@ -239,6 +361,9 @@ def run(tier, replay=None):
     run_face_only_reinsertion(chk, F)
     run_remove_all_cofaces(chk, F)
     run_insert_shortcut(chk, F)
+    run_label_width(chk, F)
+    run_handle_lockstep(chk, F)
+    run_handle_copy(chk, F)
     chk.count('erase-and-reinsert loops', n_loops)
     chk.expect_count('E10-provenance', 'erase-and-reinsert loops', n_loops, 6)
     chk.assumptions += ['clang 14 parser', 'dependence is syntactic def-use over the loop body (sound over-approximation '
